@@ -204,6 +204,22 @@ def _case_illformed(ctx, spec):
         child = bt.core.FixedIncomeStrategy("fi", children=sorted(pr))
         parent = bt.core.Strategy("mv", [], children=[child])
         must_raise(lambda: parent.setup(data), "setup of a fixed-income strategy under a market-value parent")
+        # the same refusal when the fixed-income strategy is attached to an already set-up market-value parent afterwards
+        class LateFI(bt.core.FixedIncomeStrategy):
+            def __init__(self, name, algos=None, children=None, parent=None):
+                bt.core.Strategy.__init__(self, name, algos=algos, children=children, parent=parent)
+                self._fixed_income = True
+
+        mv = bt.core.Strategy("mv2", [], children=sorted(pr)[:1])
+        mv.setup(data)
+        mv.adjust(cap)
+        mv.update(data.index[0])
+
+        def attach():
+            late = LateFI("late_fi", children=sorted(pr), parent=mv)
+            late.setup_from_parent()
+
+        must_raise(attach, "attaching a fixed-income strategy to a set-up market-value parent (parent=, setup_from_parent)")
         # the supported nesting must keep working
         ok_parent = bt.core.FixedIncomeStrategy("fi_root", children=[bt.core.FixedIncomeStrategy("fi", children=sorted(pr))])
         try:
